@@ -98,10 +98,6 @@ class Unit:
         r = self.__eq__(other)
         return (not r) if isinstance(r, bool) else ~r
 
-    @property
-    def units(self):
-        return self
-
     def __mul__(self, other):
         if isinstance(other, Unit):
             return umul(self, other)
